@@ -16,7 +16,7 @@ from common import *
 from persist_common import *
 import extract_c05
 
-PJH_KEEP = 80   # x y z vx vy vz ax ay az m : the members of ri_whfast.p_jh that WHFast computes and reads
+PJH_KEEP = ((0, 48), (72, 80))   # x y z vx vy vz, m : the members of ri_whfast.p_jh that every WHFast coordinate system writes
 
 
 def translator_obligations(c, info):
@@ -97,7 +97,7 @@ class Search:
         psz = self.info["psz"]
         for t, p in fields:
             if self.R.names.get(t) == "ri_whfast.p_jh":
-                p = b"".join(p[e:e + PJH_KEEP] for e in range(0, len(p), psz))
+                p = b"".join(p[e + lo:e + hi] for e in range(0, len(p), psz) for lo, hi in PJH_KEEP)
             out.append((t, p))
         return out
 
@@ -123,11 +123,22 @@ class Search:
                 self.peek(r, "ri_mercurius.recalculate_r_crit_this_timestep"):
             self.poke(r, "ri_mercurius.recalculate_r_crit_this_timestep", 1)
             key = "F18:mercurius-recalculate_r_crit-not-persisted"
-        elif cfg["integrator"] == "trace" and self.peek(a, "N_allocated_collisions", ctypes.c_int) != 0:
+        elif cfg["integrator"] == "trace" and cfg.get("collision"):
+            # control: is the real code deterministic at all from this state?
+            b = R.save(a)
+            r1, _ = R.load_bytes(b); attach(r1, cfg)
+            r2, _ = R.load_bytes(b); attach(r2, cfg)
+            advance(r1, k); advance(r2, k)
+            if R.first_difference(self.semantic(R.persisted_view(r1)), self.semantic(R.persisted_view(r2))) is not None:
+                return "F24:trace-collision-nondeterministic"
             n = self.peek(a, "N_allocated_collisions", ctypes.c_int)
+            if n == 0:
+                return "F25:trace-collision-step-depends-on-transient-arrays"
             ctypes.c_void_p.from_address(ctypes.addressof(r) + self.off("collisions")).value = self.libc.malloc(n * 256)
             self.poke(r, "N_allocated_collisions", n, ctypes.c_int)
-            key = "F22:trace-reads-collision-allocation-counter"
+            advance(a, k); advance(r, k)
+            d2 = R.first_difference(self.semantic(R.persisted_view(a)), self.semantic(R.persisted_view(r)))
+            return "F22:trace-reads-collision-allocation-counter" if d2 is None else "F25:trace-collision-step-depends-on-transient-arrays"
         elif cfg["integrator"] == "bs" or (cfg["integrator"] == "trace"):
             # F9b: the loader's first step re-creates the ODE and forces first_or_last_step=1; do the same to the original
             self.poke(a, "ri_bs.first_or_last_step", 1, ctypes.c_int)
@@ -222,9 +233,11 @@ def correspondence(c, exe, rb, info, R, cfgs):
         except StreamError as e:
             c.violation("unparsable-stream", "stream written by reb_simulation_save_to_stream cannot be parsed by the reference parser: %s" % e, {"cfg": cfg})
             continue
-        if frame(h, f, t) != b or len(t) != 16 or t != b"\0" * 16:
-            c.corr_break("stream framing differs from the format description (header 64, field header 16, zero trailer 16)", {"cfg": cfg})
+        if frame(h, f, t) != b or t != b"\0" * 12:
+            c.corr_break("stream framing differs from the format description (header 64, field header 16, zero trailer 12)", {"cfg": cfg})
         lines.append("DEC " + fields_line(f)); meta.append(("DEC", cfg, b, h, t))
+        if uses_tree(cfg) and not forked(lambda _: bool(R.load_bytes(b)), None)[0]:
+            continue     # F23: loading this state crashes (reported by the search); no LOADI line
         r, _ = R.load_bytes(b)
         b2 = R.save(r)
         lines.append("LOADI %d %s | %s" % (R.addr(r), fields_line(ff), fields_line(f))); meta.append(("LOADI", cfg, b2, uses_tree(cfg)))
@@ -402,22 +415,113 @@ def heap_sweep(c, S, info, R, rb):
 
 def targeted(c, S, rb, rng, thorough):
     """scenarios aimed at the members the coverage theorem lists as not persisted but read by an integrator"""
+    cases = []
     # F18: MERCURIUS request flag set by the user right before the save
     for sa in (1, 3):
-        S.one({"integrator": "mercurius", "o": {"safe_mode": 1}, "system": "close", "save_after": sa, "edit": "mercurius_rcrit"}, "buffer")
+        cases.append(({"integrator": "mercurius", "o": {"safe_mode": 1}, "system": "close", "save_after": sa, "edit": "mercurius_rcrit"}, "buffer", 9))
     # TRACE after physical collisions (N_allocated_collisions != 0 at the save point)
-    nt = 24 if thorough else 6
-    found = 0
-    for i in range(nt):
-        cfg = {"integrator": "trace", "o": {}, "system": "swarm", "seed": int(rng.next() % 100000), "collision": "direct", "save_after": 150}
-        S.one(cfg, "buffer", k=250)
+    for i in range(24 if thorough else 8):
+        cases.append(({"integrator": "trace", "o": {}, "system": "swarm", "seed": int(rng.next() % 100000), "collision": "direct",
+                       "save_after": 150}, "buffer", 250))
     # BS: save points where the error estimate converges early after the tolerances were loosened (F9b)
-    nb = 60 if thorough else 12
-    for i in range(nb):
-        cfg = {"integrator": "bs", "o": {"eps_abs": 10 ** -rng.uniform(9, 13), "eps_rel": 10 ** -rng.uniform(9, 13)},
-               "system": rng.choice(["planets", "close", "peri"]), "save_after": rng.randint(1, 6),
-               "edit": "bs_loosen", "edit_eps": 10 ** -rng.uniform(3, 6)}
-        S.one(cfg, "buffer", k=6)
+    for i in range(80 if thorough else 16):
+        cases.append(({"integrator": "bs", "o": {"eps_abs": 10 ** -rng.uniform(9, 13), "eps_rel": 10 ** -rng.uniform(9, 13)},
+                       "system": rng.choice(["planets", "close", "peri"]), "save_after": rng.randint(1, 6),
+                       "edit": "bs_loosen", "edit_eps": 10 ** -rng.uniform(3, 6)}, "buffer", 6))
+    run_cases(c, S, cases, chunk=4)
+
+
+class Rec:
+    """event recorder used inside forked workers; replayed into the real Check by the parent"""
+    def __init__(self, seed, thorough):
+        self.ev = []
+        self.seed, self.thorough = seed, thorough
+
+    def count(self, key=None, nontrivial=True, n=1):
+        self.ev.append(["count", key, nontrivial])
+
+    def violation(self, key, what, replay):
+        self.ev.append(["violation", key, what, replay])
+
+    def corr_break(self, what, detail=None):
+        self.ev.append(["corr", what, detail])
+
+    def log(self, *a):
+        pass
+
+
+def replay_events(c, ev, hist, S):
+    for e in ev:
+        if e[0] == "count":
+            k = e[1]
+            c.count(tuple(k) if isinstance(k, list) else k, e[2])
+        elif e[0] == "violation":
+            c.violation(e[1], e[2], e[3])
+        elif e[0] == "corr":
+            c.corr_break(e[1], e[2])
+    for k, v in hist.items():
+        S.hist[k] = S.hist.get(k, 0) + v
+
+
+def run_cases(c, S, cases, nproc=8, chunk=12):
+    """run S.one over (cfg, path, k) cases in forked workers; a crashing case is pinned down and reported"""
+    rb, info, R = S.rb, S.info, S.R
+
+    def work(sub):
+        rec = Rec(c.seed, c.thorough)
+        W = Search(rec, rb, info, R)
+        for cfg, path, k in sub:
+            W.one(cfg, path, k)
+        shutil.rmtree(W.tmp, ignore_errors=True)
+        return {"ev": rec.ev, "hist": W.hist}
+
+    chunks = [cases[i:i + chunk] for i in range(0, len(cases), chunk)]
+    running = []   # (pid, rfd, sub)
+    results = []
+
+    def start(sub):
+        rfd, wfd = os.pipe()
+        pid = os.fork()
+        if pid == 0:
+            rcode = 1
+            try:
+                os.close(rfd)
+                out = work(sub)
+                data = json.dumps(out, default=str).encode()
+                with os.fdopen(wfd, "wb") as f:
+                    f.write(data)
+                rcode = 0
+            finally:
+                os._exit(rcode)
+        os.close(wfd)
+        return (pid, rfd, sub)
+
+    def finish(job):
+        pid, rfd, sub = job
+        data = b""
+        while True:
+            ch = os.read(rfd, 1 << 16)
+            if not ch:
+                break
+            data += ch
+        os.close(rfd)
+        _, status = os.waitpid(pid, 0)
+        if status == 0 and data:
+            o = json.loads(data.decode())
+            replay_events(c, o["ev"], o["hist"], S)
+        elif len(sub) > 1:
+            for one in sub:       # pin the crashing case
+                finish(start([one]))
+        else:
+            cfg, path, k = sub[0]
+            key = "F23:load-crash-tree-flagged-particles" if uses_tree(cfg) else "crash:" + cfg["integrator"]
+            c.violation(key, "save/load/continue of a reachable simulation crashes the process (status %d), cfg %s path %s" % (status, cfg_key(cfg), path),
+                        {"cfg": cfg, "path": path, "steps": k})
+    queue = list(chunks)
+    while queue or running:
+        while queue and len(running) < nproc:
+            running.append(start(queue.pop(0)))
+        finish(running.pop(0))
 
 
 def run(c):
@@ -453,11 +557,19 @@ def run(c):
     c.log("correspondence done: %s streams" % c.cov.get("model_streams_compared"))
     # --- search
     paths = ["buffer", "file", "copy", "pickle"]
+    cases = []
     for i, cfg in enumerate(cfgs):
-        S.one(cfg, paths[(i + c.seed) % 4])
+        cases.append((cfg, paths[(i + c.seed) % 4], 9))
         if c.thorough:
-            S.one(cfg, paths[(i + c.seed + 2) % 4], k=23)
-    c.log("lattice done")
+            cases.append((cfg, paths[(i + c.seed + 2) % 4], 23))
+    # randomised save points / continuation lengths / paths on top of the lattice (seeded)
+    nf = 3000 if c.thorough else 600
+    for i in range(nf):
+        cfg = dict(cfgs[c.rng.next() % len(cfgs)])
+        cfg["save_after"] = c.rng.randint(0, 12)
+        cases.append((cfg, paths[c.rng.next() % 4], c.rng.randint(1, 25)))
+    run_cases(c, S, cases)
+    c.log("lattice done (%d cases)" % len(cases))
     member_sweep(c, S, info, R, rb)
     heap_sweep(c, S, info, R, rb)
     c.log("sweeps done")
